@@ -21,7 +21,7 @@ for p in props:
         'engine': 'vf',
         'level_claimed': {
             'category': getattr(m, 'LEVEL', 'exploration'),
-            'text': getattr(m, 'LEVEL_TEXT', 'Generated-input search (Hypothesis strategies plus exhaustive enumeration of the finite sub-domains) against an independent executable oracle; failures are bucketed by root cause and shrunk into replay files. Establishes absence of violations only on what was explored; the evidence file says how much that is.'),
+            'text': getattr(m, 'LEVEL_TEXT', 'Generated-input search (Hypothesis strategies plus exhaustive enumeration of the finite sub-domains) against an independent executable oracle; failures are bucketed by root cause and shrunk into replay files. The property quantifies over an unbounded input/history space, so exploration with a reference oracle is the level this technique family can honestly claim: it establishes absence of violations only on what was explored, and the evidence file says how much that is. Explored domain and oracle: ' + getattr(m, 'RULE', '')),
             'design_ref': 'DESIGN.md section 6, ' + pid,
         },
         'level_note': getattr(m, 'LEVEL_NOTE', 'Trusted: CPython, Hypothesis, the reference model under vf/ref and the generators under vf/gen; ' + '; '.join(getattr(m, 'ASSUMPTIONS', []))),
